@@ -751,6 +751,23 @@ def run(root, cfg, log, repo="/repo"):
         else:
             rlines.append(f"{t['kind']} {name}")
     write_if_changed(os.path.join(work, "grammar_ref.txt"), "\n".join(rlines) + "\n")
+    # ... and for the FRESH expansion (what the in-tree macro makes of the in-tree DSL today): C20 generates documents from
+    # it as well, so that something only the fresh expansion accepts reaches the shipped code
+    flines = []
+    for name in sorted(fresh):
+        t = fresh[name]
+        if t["kind"] == "block":
+            fl = t.get("writer", {}).get("fields", [])
+            if len(fl) >= len(t["items"]):
+                flines.append(f"fields {name} " + ",".join(str(x) for x in fl[:len(t['items'])]))
+        if t["kind"] == "enum":
+            flines.append(f"enum {name} " + " ".join(f"{i['tag']}:{i['vlo']}:{i['vhi']}" for i in t["items"]))
+        elif t["kind"] == "block":
+            arms = ",".join(f"{a['tag']}:{a['ty']}:{int(a['block'])}:{int(a['repeat'])}:{int(a['required'])}:{a['vlo']}:{a['vhi']}" for a in (t["tagged"] or []))
+            flines.append(f"block {name} {int(t['is_block'])} items={','.join(item_txt(i) for i in t['items']) or '-'} tagged={arms or '-'} pos={t.get('pos', 0)}")
+        else:
+            flines.append(f"{t['kind']} {name}")
+    write_if_changed(os.path.join(work, "grammar_fresh.txt"), "\n".join(flines) + "\n")
     notes.append(f"tables regenerated: {len(shipped)} shipped types, {len(fresh)} fresh types, {len(ref)} reference types, {len(sym.names)} symbols; "
                  f"{sum(1 for k in set(ev_s) | set(ev_f) if ev_s.get(k) != ev_f.get(k))} of {len(ev_s)} functions differ at event level")
     for n in notes:
